@@ -142,24 +142,40 @@ func (in *Interp) mutexLock(m Value) {
 		held = map[Ptr]int{}
 		in.hooks["mutexes"] = held
 	}
-	for {
+	waiting, _ := in.hooks["mutexwait"].(map[Ptr]int)
+	if waiting == nil {
+		waiting = map[Ptr]int{}
+		in.hooks["mutexwait"] = waiting
+	}
+	me := s.cur
+	for spins := 0; ; spins++ {
 		owner, taken := held[p]
 		if !taken {
-			held[p] = s.cur
+			held[p] = me
 			return
 		}
-		if owner == s.cur {
+		if owner == me {
+			if _, w := waiting[p]; w {
+				delete(waiting, p) // handed over to us by the unlocking thread while we were descheduled
+				return
+			}
 			panic(pathDone{"self-deadlock on a mutex"})
 		}
-		other := 1 - s.cur
-		if s.threads[other].done {
-			panic(pathDone{"deadlock: mutex held by a finished thread"})
+		other := 1 - me
+		if s.threads[other].done || spins > 1000 {
+			panic(pathDone{"deadlock on a mutex"})
 		}
+		waiting[p] = me
 		in.switchTo(s, other) // blocked: not a pre-emption
 		in.rethrow(s)
+		if held[p] == me {
+			delete(waiting, p)
+			return
+		}
 	}
 }
 
+// mutexUnlock: a waiter (as with a real mutex) gets the lock at once, but stays descheduled until it is switched to.
 func (in *Interp) mutexUnlock(m Value) {
 	s := in.sched()
 	if s == nil || !s.active {
@@ -169,7 +185,15 @@ func (in *Interp) mutexUnlock(m Value) {
 	if !ok || p == nil {
 		return
 	}
-	if held, _ := in.hooks["mutexes"].(map[Ptr]int); held != nil {
-		delete(held, p)
+	held, _ := in.hooks["mutexes"].(map[Ptr]int)
+	if held == nil {
+		return
 	}
+	if waiting, _ := in.hooks["mutexwait"].(map[Ptr]int); waiting != nil {
+		if w, ok := waiting[p]; ok && w != s.cur {
+			held[p] = w
+			return
+		}
+	}
+	delete(held, p)
 }
